@@ -270,7 +270,8 @@ def monitor(scn, sobj, rep, sf, ck):
     prev = 1 if (pre is not None and sobj.meta.get("two") and start > 0) else 0     # the other interface's record, if it spoke first
     first_prev = prev
     maxlive = 0
-    kinds_seen = set()          # request kinds handled since the last topology Reset
+    grown = set()               # request kinds that have already added a retained allocation in this session
+    record_done = prev > 0 and False
     for idx, inp in enumerate(scn.inputs[start:]):
         if idx >= len(frames) or inp.led is None:
             break
@@ -278,22 +279,26 @@ def monitor(scn, sobj, rep, sf, ck):
         tos, op = buf[15], buf[17]
         live = inp.led[0]
         delta = live - prev
-        kind = (tos, op, buf[32] if op == W.OP_QLT else 0)
-        allowed = 0
-        if idx == 0:
-            allowed += 1                               # the constant per-interface record
-        if tos == 0 and op in (W.OP_PROBE, W.OP_TRAIN):
-            allowed += 1                               # one observation
-        elif kind not in kinds_seen:
-            allowed += 1                               # a per-session cache entry for this kind of request (e.g. the icon)
-        if delta > allowed:
+        is_probe = tos == 0 and op in (W.OP_PROBE, W.OP_TRAIN)
+        kind = (op, buf[32] if op == W.OP_QLT else 0)
+        # what a frame may legitimately leave behind: the constant per-interface record (once), one observation for a
+        # Probe/Train, and one cache entry per kind of request per session (e.g. the icon) - a second growth on the
+        # same kind within a session is a buffer that was not released
+        budget = (0 if record_done else 1) + (1 if is_probe else (0 if kind in grown else 1))
+        if delta > budget:
             rep.violation("C19:buffer-not-released-after-frame:%s" % W.OPNAMES.get(op, "other"),
                           "scenario %s input %d (tos=%d opcode=%d): live allocations %d -> %d; at most +%d can be retained state "
-                          "(one observation per Probe/Train, one cache entry the first time a kind of request is served in a session)"
-                          % (scn.sid, idx + 1, tos, op, prev, live, allowed), replay=None)
-        kinds_seen.add(kind)
-        if tos == 0 and op == W.OP_RESET:
-            kinds_seen.clear()
+                          "(the per-interface record once, one observation per Probe/Train, one cache entry per kind of request "
+                          "per session)" % (scn.sid, idx + 1, tos, op, prev, live, budget), replay=None)
+        if delta > 0:
+            d = delta
+            if not record_done:
+                record_done = True
+                d -= 1
+            if d > 0 and not is_probe:
+                grown.add(kind)
+        if tos == 0 and op == W.OP_RESET and delta <= 0:
+            grown.clear()
         prev = live
         maxlive = max(maxlive, live)
     rep.count("mixed_frames", min(len(frames), len(scn.inputs)))
